@@ -441,6 +441,12 @@ impl Run {
             AbsOp::MarkDirty { t } => v.push(Step::Do(Op::MarkDirty { inst: 0, t: self.tix(*t) })),
             AbsOp::IsClean { t } => v.push(Step::Do(Op::IsClean { inst: 0, t: self.tix(*t) })),
             AbsOp::Sleep { ms } => v.push(Step::Do(Op::Sleep { ms: *ms as u64 })),
+            AbsOp::Fill { t, n } => {
+                let t = self.tix(*t);
+                for _ in 0..*n {
+                    v.push(Step::Do(Op::Append { inst: 0, t, seq: self.next_seq(1), len: 5 * MIB + 300 * 1024 }));
+                }
+            }
         }
         v
     }
